@@ -80,14 +80,23 @@ Qed.
 Definition wf_op (bind : bytes -> bytes) (o : aop) : Prop :=
   match o with
   | APut k v sz => v = bind k /\ v <> [] /\ 0 <= sz
-  | AGet _ | AHas _ | APeek _ => True
-  | ARemove _ | AClear => False
+  | AHasOrAdd k v sz => v = bind k /\ v <> [] /\ 0 <= sz
+  | AGet _ | AHas _ | APeek _ | ASizeInBytesContained | AMaxSize => True
+  | ARemove _ | AClear | AClose => False
+  end.
+
+(** the same domain with Close allowed (histories that close the adapter) *)
+Definition wf_c (bind : bytes -> bytes) (o : aop) : Prop :=
+  match o with
+  | AClose => True
+  | _ => wf_op bind o
   end.
 
 Fixpoint puts (ops : list aop) : list bytes :=
   match ops with
   | [] => []
   | APut k _ _ :: r => k :: puts r
+  | AHasOrAdd k _ _ :: r => k :: puts r
   | _ :: r => puts r
   end.
 
@@ -95,7 +104,8 @@ Definition mem_keys (a : adapter) : list bytes := keys (entries (mem a)).
 
 Definition J (bind : bytes -> bytes) (a : adapter) (S : list bytes) : Prop :=
   cinv (mem a) /\ bound bind (entries (mem a)) /\ db_bound bind (db a) /\
-  (forall k, In k S -> In k (mem_keys a) \/ db_get k (db a) <> None).
+  (forall k, In k S -> In k (mem_keys a) \/ db_get k (db a) <> None) /\
+  dbIsClosed a = false.
 
 Lemma in_cabs e c : In e (cabs c) <-> In e (entries c).
 Proof. unfold cabs. symmetry. apply in_rev. Qed.
@@ -116,7 +126,7 @@ Lemma put_effect bind a S k sz a' f : J bind a S -> bind k <> [] -> 0 <= sz ->
     (forall e, In e p -> db_get (e_key e) (db a') = Some (e_val e)) /\
     (forall x, db_get x (db a) <> None -> db_get x (db a') <> None).
 Proof.
-  intros [J1 [J2 [J3 J4]]] Hne Hsz Hput. unfold ad_Put in Hput.
+  intros [J1 [J2 [J3 [J4 J5]]]] Hne Hsz Hput. unfold ad_Put in Hput. rewrite J5 in Hput.
   destruct (AddSizedAndReturnEvicted (mem a) k (bind k) sz) as [m' evd] eqn:Ea.
   assert (Hsz' : (sz <? 0) = false) by lia.
   destruct (ASARE_spec (mem a) k (bind k) sz m' evd J1 Hsz' Ea) as [p [q [Hd [Hq [Hev [Hi' Hpar]]]]]].
@@ -128,7 +138,7 @@ Proof.
   destruct Hps as [P1 [P2 P3]]. inversion Hput; subst. clear Hput. cbn [mem db].
   exists p, q. split; [exact Hd|]. split; [exact Hq|]. split; [rewrite map_length; reflexivity|].
   split; [|split; [exact P3|exact P2]].
-  split; [exact Hi'|]. cbn [mem db]. split; [|split; [exact P1|]].
+  split; [exact Hi'|]. cbn [mem db]. split; [|split; [exact P1|split; [|reflexivity]]].
   - intros e He. apply in_cabs in He. rewrite Hq in He. apply in_app_or in He. destruct He as [He|[<-|[]]].
     + apply J2. apply in_cabs. apply (in_del e k). rewrite Hd. apply in_or_app. right. exact He.
     + simpl. split; [reflexivity|exact Hne].
@@ -160,7 +170,7 @@ Qed.
 Lemma get_effect bind a S k a' r : J bind a S -> ad_Get a k = (a', r) ->
   J bind a' S /\ db a' = db a /\ (forall x, In x (mem_keys a') <-> In x (mem_keys a)).
 Proof.
-  intros [J1 [J2 [J3 J4]]] Hget. unfold ad_Get in Hget.
+  intros [J1 [J2 [J3 [J4 J5]]]] Hget. unfold ad_Get in Hget.
   destruct (Get (mem a) k) as [m' r0] eqn:Eg.
   destruct (Get_refines (mem a) k m' r0 J1 Eg) as [Hi' _].
   assert (Hsame : forall e, In e (entries m') <-> In e (entries (mem a))).
@@ -174,10 +184,30 @@ Proof.
       apply (nodup_key_eq l ent e Hd E1 H). rewrite E2, Ek. reflexivity. }
   assert (Hk : forall x, In x (keys (entries m')) <-> In x (keys (entries (mem a)))).
   { intros x. unfold keys. rewrite !in_map_iff. split; intros [e [E1 E2]]; exists e; split; auto; apply Hsame; exact E2. }
-  assert (HJ : J bind (mkAdapter m' (db a) (numValuesInStorage a)) S).
+  assert (HJ : J bind (mkAdapter m' (db a) (numValuesInStorage a) (dbIsClosed a)) S).
   { split; [exact Hi'|]. cbn [mem db]. split; [intros e He; apply J2; apply Hsame; exact He|]. split; [exact J3|].
+    split; [|exact J5].
     intros x Hx. destruct (J4 x Hx) as [H|H]; [left; unfold mem_keys; cbn [mem]; apply Hk; exact H|right; exact H]. }
   destruct r0; inversion Hget; subst; (split; [exact HJ|split; [reflexivity|exact Hk]]).
+Qed.
+
+(** a key that Has reports on an open adapter is in one of the tiers *)
+Lemma has_open_tiers a k : dbIsClosed a = false ->
+  (ad_Has a k = true <-> In k (mem_keys a) \/ db_get k (db a) <> None).
+Proof.
+  intros Hc. unfold ad_Has, Contains, db_has, mem_keys. rewrite Hc.
+  destruct (lookup k (entries (mem a))) as [ent|] eqn:El.
+  - split; [intros _|reflexivity]. left. apply lookup_some in El. destruct El as [E1 E2]. subst k.
+    apply in_map. exact E1.
+  - apply lookup_none in El. destruct (db_get k (db a)) as [w|]; split; try reflexivity; try discriminate.
+    + intros _. right. discriminate.
+    + intros [H|H]; [contradiction|congruence].
+Qed.
+
+Lemma J_more bind a S k : J bind a S -> In k (mem_keys a) \/ db_get k (db a) <> None -> J bind a (k :: S).
+Proof.
+  intros [J1 [J2 [J3 [J4 J5]]]] Hk. split; [exact J1|]. split; [exact J2|]. split; [exact J3|]. split; [|exact J5].
+  intros x [<-|Hx]; [exact Hk|apply J4; exact Hx].
 Qed.
 
 Lemma astep_J bind a S o a' r : J bind a S -> wf_op bind o -> astep a o = (a', r) ->
@@ -191,6 +221,15 @@ Proof.
   - inversion Hstep; subst. exact HJ.
   - destruct Hwf.
   - destruct Hwf.
+  - (* HasOrAdd *)
+    destruct Hwf as [-> [Hne Hsz]]. unfold ad_HasOrAdd in Hstep.
+    destruct (ad_Has a k) eqn:Eh.
+    + inversion Hstep; subst. apply J_more; [exact HJ|]. apply has_open_tiers; [apply HJ|exact Eh].
+    + destruct (ad_Put a k (bind k) sz) as [a1 f] eqn:E. inversion Hstep; subst.
+      destruct (put_effect bind a S k sz a' f HJ Hne Hsz E) as [p [q [_ [_ [_ [H _]]]]]]. exact H.
+  - destruct Hwf.
+  - inversion Hstep; subst. exact HJ.
+  - inversion Hstep; subst. exact HJ.
 Qed.
 
 Lemma puts_app l1 l2 : puts (l1 ++ l2) = puts l1 ++ puts l2.
@@ -215,13 +254,13 @@ Proof.
   unfold newAdapter. destruct (newCapacityLRU cap mb) as [c|] eqn:E; [|discriminate]. intros H. inversion H; subst.
   destruct (new_cinv cap mb c E) as [H1 [_ H3]]. split; [exact H1|]. cbn [mem db].
   assert (He : entries c = []) by (unfold cabs in H3; destruct (entries c); [reflexivity|]; simpl in H3; destruct (rev l); discriminate).
-  split; [rewrite He; intros e []|]. split; [intros k v; discriminate|intros k []].
+  split; [rewrite He; intros e []|]. split; [intros k v; discriminate|]. split; [intros k []|reflexivity].
 Qed.
 
 (** ---- C17_no_loss *)
 Lemma J_serves bind a S k : J bind a S -> In k S -> ad_Has a k = true /\ snd (ad_Get a k) = Some (bind k).
 Proof.
-  intros [J1 [J2 [J3 J4]]] Hk. unfold ad_Has, ad_Get, Contains, Get, db_has.
+  intros [J1 [J2 [J3 [J4 J5]]]] Hk. unfold ad_Has, ad_Get, Contains, Get, db_has. rewrite J5.
   destruct (lookup k (entries (mem a))) as [ent|] eqn:El.
   - split; [reflexivity|]. cbn [snd]. apply lookup_some in El. destruct El as [E1 E2].
     destruct (J2 ent E1) as [Hv _]. rewrite Hv, E2. reflexivity.
@@ -272,6 +311,20 @@ Proof.
   - inversion Hstep; subst. exfalso. apply Hgone. apply in_keys_cabs. apply in_map. exact He.
   - destruct Hwo.
   - destruct Hwo.
+  - (* HasOrAdd: nothing moves when the key is reported, otherwise it is a Put *)
+    destruct Hwo as [-> [Hne Hsz]]. unfold ad_HasOrAdd in Hstep. destruct (ad_Has a k) eqn:Eh.
+    + inversion Hstep; subst. exfalso. apply Hgone. apply in_keys_cabs. apply in_map. exact He.
+    + destruct (ad_Put a k (bind k) sz) as [a1 f] eqn:E. inversion Hstep; subst a1 r. clear Hstep.
+      destruct (put_effect bind a S k sz a' f HJ Hne Hsz E) as [p [q [Hd [Hq [_ [_ [P3 _]]]]]]].
+      destruct (beqb_spec (e_key e) k) as [Hk|Hk].
+      * exfalso. apply Hgone. rewrite Hq. unfold keys. rewrite map_app. apply in_or_app. right. left. simpl. symmetry. exact Hk.
+      * assert (Hin : In e (sp_del k (cabs (mem a)))).
+        { unfold sp_del. apply filter_In. split; [apply in_cabs; exact He|]. apply negb_true_iff. apply is_key_false. exact Hk. }
+        rewrite Hd in Hin. apply in_app_or in Hin. destruct Hin as [Hin|Hin]; [apply P3; exact Hin|].
+        exfalso. apply Hgone. rewrite Hq. unfold keys. rewrite map_app. apply in_or_app. left. apply in_map. exact Hin.
+  - destruct Hwo.
+  - inversion Hstep; subst. exfalso. apply Hgone. apply in_keys_cabs. apply in_map. exact He.
+  - inversion Hstep; subst. exfalso. apply Hgone. apply in_keys_cabs. apply in_map. exact He.
 Qed.
 
 Theorem put_flag bind cap mb a0 ops k v sz a' f : newAdapter cap mb = Some a0 ->
@@ -304,4 +357,191 @@ Proof.
     + unfold keys. rewrite map_app. apply in_or_app. right. left. simpl. symmetry. exact Hk.
     + unfold keys. rewrite map_app. apply in_or_app. left. apply in_map. rewrite <- Hd.
       unfold sp_del. apply filter_In. split; [apply in_cabs; exact He|]. apply negb_true_iff. apply is_key_false. exact Hk.
+Qed.
+
+(** ---- HasOrAdd: what its two flags say *)
+Lemma entries_of_cabs c l : cabs c = l -> entries c = rev l.
+Proof. unfold cabs. intros <-. rewrite rev_involutive. reflexivity. Qed.
+
+Theorem hasoradd_flags bind cap mb a0 ops k v sz a' has added : newAdapter cap mb = Some a0 ->
+  Forall (wf_op bind) ops -> wf_op bind (AHasOrAdd k v sz) ->
+  astep (arun a0 ops) (AHasOrAdd k v sz) = (a', ARHasOrAdd has added) ->
+  let a := arun a0 ops in
+  (has = true <-> In k (Keys (mem a)) \/ db_get k (db a) <> None) /\
+  (has = true -> a' = a /\ added = false) /\
+  (has = false ->
+     Peek (mem a') k = Some v /\
+     (added = true <-> exists e, In e (entries (mem a)) /\ ~ In (e_key e) (Keys (mem a'))
+                                 /\ db_get (e_key e) (db a') = Some (e_val e))).
+Proof.
+  intros Hnew Hwf Hwo Hstep a. destruct (reach_J bind cap mb a0 ops Hnew Hwf) as [S HJ]. fold a in HJ.
+  assert (Hopen : dbIsClosed a = false) by apply HJ.
+  assert (Hkeys : In k (Keys (mem a)) <-> In k (mem_keys a)).
+  { rewrite Keys_refines. change (sp_keys (cabs (mem a))) with (keys (cabs (mem a))). apply in_keys_cabs. }
+  cbn [astep] in Hstep. unfold ad_HasOrAdd in Hstep. fold a in Hstep.
+  destruct (ad_Has a k) eqn:Eh.
+  - inversion Hstep; subst a' has added. clear Hstep.
+    split; [|split; [intros _; split; reflexivity|discriminate]].
+    split; [intros _|reflexivity]. rewrite Hkeys. apply has_open_tiers; assumption.
+  - destruct (ad_Put a k v sz) as [a1 f] eqn:E. inversion Hstep; subst a1 has added. clear Hstep.
+    split; [|split; [discriminate|intros _]].
+    + split; [discriminate|]. intros H. rewrite Hkeys in H. apply (has_open_tiers a k Hopen) in H. congruence.
+    + assert (Hwp : wf_op bind (APut k v sz)) by exact Hwo.
+      assert (Hst : astep a (APut k v sz) = (a', ARPut f)) by (cbn [astep]; rewrite E; reflexivity).
+      split; [|exact (put_flag bind cap mb a0 ops k v sz a' f Hnew Hwf Hwp Hst)].
+      cbn [wf_op] in Hwo. destruct Hwo as [-> [Hne Hsz]].
+      destruct (put_effect bind a S k sz a' f HJ Hne Hsz E) as [p [q [_ [Hq _]]]].
+      apply entries_of_cabs in Hq. rewrite rev_app_distr in Hq. simpl in Hq.
+      unfold Peek. rewrite Hq. cbn [lookup e_key]. rewrite beqb_refl. reflexivity.
+Qed.
+
+(** ---- Close *)
+Lemma close_effect a : astep a AClose = (mkAdapter (mem a) (db a) 0 true, ARClose).
+Proof. reflexivity. Qed.
+
+(** a closed adapter stays closed and never touches the persister again: ANY operation *)
+Lemma astep_closed a o : dbIsClosed a = true ->
+  dbIsClosed (fst (astep a o)) = true /\ db (fst (astep a o)) = db a.
+Proof.
+  intros Hc. destruct o; cbn [astep].
+  - unfold ad_Put. rewrite Hc. destruct (AddSizedAndReturnEvicted (mem a) k v sz) as [m' evd]. split; reflexivity.
+  - unfold ad_Get. rewrite Hc. destruct (Get (mem a) k) as [m' [w|]]; split; reflexivity.
+  - split; [exact Hc|reflexivity].
+  - split; [exact Hc|reflexivity].
+  - unfold ad_Remove. rewrite Hc. destruct (Remove (mem a) k) as [m' removed]. rewrite orb_true_r. split; reflexivity.
+  - unfold ad_Clear. split; [exact Hc|reflexivity].
+  - unfold ad_HasOrAdd. destruct (ad_Has a k); [split; [exact Hc|reflexivity]|].
+    unfold ad_Put. rewrite Hc. destruct (AddSizedAndReturnEvicted (mem a) k v sz) as [m' evd]. split; reflexivity.
+  - split; reflexivity.
+  - split; [exact Hc|reflexivity].
+  - split; [exact Hc|reflexivity].
+Qed.
+
+Lemma arun_cons a o ops : arun a (o :: ops) = arun (fst (astep a o)) ops.
+Proof. reflexivity. Qed.
+
+Lemma arun_app a l1 l2 : arun a (l1 ++ l2) = arun (arun a l1) l2.
+Proof. unfold arun. apply fold_left_app. Qed.
+
+Theorem closed_forever ops : forall a, dbIsClosed a = true ->
+  dbIsClosed (arun a ops) = true /\ db (arun a ops) = db a.
+Proof.
+  induction ops as [|o ops IH]; intros a Hc; [split; [exact Hc|reflexivity]|].
+  rewrite arun_cons. destruct (astep_closed a o Hc) as [H1 H2].
+  destruct (IH _ H1) as [I1 I2]. split; [exact I1|]. rewrite I2. exact H2.
+Qed.
+
+(** after a Close anywhere in ANY history: closed, the persister is what it was at the Close, counter
+    restarted from 0 at the Close *)
+Theorem close_freezes_db a0 pre post :
+  dbIsClosed (arun a0 (pre ++ AClose :: post)) = true /\
+  db (arun a0 (pre ++ AClose :: post)) = db (arun a0 pre).
+Proof.
+  rewrite arun_app, arun_cons. rewrite close_effect. cbn [fst].
+  apply (closed_forever post (mkAdapter (mem (arun a0 pre)) (db (arun a0 pre)) 0 true)). reflexivity.
+Qed.
+
+(** the memory tier along histories that may close the adapter: K = the part of J that does not
+    mention the persister *)
+Definition K (bind : bytes -> bytes) (a : adapter) : Prop :=
+  cinv (mem a) /\ bound bind (entries (mem a)).
+
+Lemma put_mem bind a k sz a' f : K bind a -> bind k <> [] -> 0 <= sz ->
+  ad_Put a k (bind k) sz = (a', f) -> K bind a'.
+Proof.
+  intros [K1 K2] Hne Hsz Hput.
+  assert (Hm : mem a' = fst (AddSizedAndReturnEvicted (mem a) k (bind k) sz)).
+  { unfold ad_Put in Hput. destruct (AddSizedAndReturnEvicted (mem a) k (bind k) sz) as [m' evd].
+    destruct (dbIsClosed a); [inversion Hput; reflexivity|].
+    destruct (fold_left persist_one evd (db a, numValuesInStorage a)) as [d' n']. inversion Hput; reflexivity. }
+  destruct (AddSizedAndReturnEvicted (mem a) k (bind k) sz) as [m' evd] eqn:Ea. cbn [fst] in Hm.
+  assert (Hsz' : (sz <? 0) = false) by lia.
+  destruct (ASARE_spec (mem a) k (bind k) sz m' evd K1 Hsz' Ea) as [p [q [Hd [Hq [_ [Hi' _]]]]]].
+  unfold K. rewrite Hm. split; [exact Hi'|].
+  intros e He. apply in_cabs in He. rewrite Hq in He. apply in_app_or in He. destruct He as [He|[<-|[]]].
+  - apply K2. apply in_cabs. apply (in_del e k). rewrite Hd. apply in_or_app. right. exact He.
+  - simpl. split; [reflexivity|exact Hne].
+Qed.
+
+Lemma get_mem bind a k a' r : K bind a -> ad_Get a k = (a', r) -> K bind a'.
+Proof.
+  intros [K1 K2] Hget. unfold ad_Get in Hget.
+  destruct (Get (mem a) k) as [m' r0] eqn:Eg.
+  destruct (Get_refines (mem a) k m' r0 K1 Eg) as [Hi' _].
+  assert (Hsame : forall e, In e (entries m') -> In e (entries (mem a))).
+  { unfold Get in Eg. destruct (lookup k (entries (mem a))) as [ent|] eqn:El; inversion Eg; subst; [|tauto].
+    apply lookup_some in El. destruct El as [E1 E2].
+    destruct (mem a) as [l ms mb cb st]. cbn [entries with_entries] in *.
+    intros e [<-|H]; [exact E1|].
+    clear - H. induction l as [|x l IH]; [destruct H|]. simpl in H. destruct (beqb (e_key x) k).
+    - right. exact H.
+    - destruct H as [<-|H]; [left; reflexivity|right; apply IH; exact H]. }
+  assert (Hm : mem a' = m') by (destruct r0; inversion Hget; reflexivity).
+  unfold K. rewrite Hm. split; [exact Hi'|]. intros e He. apply K2. apply Hsame. exact He.
+Qed.
+
+Lemma astep_K bind a o : K bind a -> wf_c bind o -> K bind (fst (astep a o)).
+Proof.
+  intros HK Hwf. destruct o; cbn [astep]; cbn [wf_c wf_op] in Hwf.
+  - destruct Hwf as [-> [Hne Hsz]]. destruct (ad_Put a k (bind k) sz) as [a1 f] eqn:E. cbn [fst].
+    apply (put_mem bind a k sz a1 f HK Hne Hsz E).
+  - destruct (ad_Get a k) as [a1 r1] eqn:E. cbn [fst]. apply (get_mem bind a k a1 r1 HK E).
+  - exact HK.
+  - exact HK.
+  - destruct Hwf.
+  - destruct Hwf.
+  - destruct Hwf as [-> [Hne Hsz]]. unfold ad_HasOrAdd. destruct (ad_Has a k); [exact HK|].
+    destruct (ad_Put a k (bind k) sz) as [a1 f] eqn:E. cbn [fst].
+    apply (put_mem bind a k sz a1 f HK Hne Hsz E).
+  - exact HK.
+  - exact HK.
+  - exact HK.
+Qed.
+
+Lemma arun_K bind ops : forall a, K bind a -> Forall (wf_c bind) ops -> K bind (arun a ops).
+Proof.
+  induction ops as [|o ops IH]; intros a HK Hwf; [exact HK|].
+  inversion Hwf as [|x y Hwo Hwf']; subst. rewrite arun_cons. apply IH; [|exact Hwf'].
+  apply astep_K; assumption.
+Qed.
+
+Lemma new_K bind cap mb a0 : newAdapter cap mb = Some a0 -> K bind a0.
+Proof. intros H. destruct (new_J bind cap mb a0 H) as [J1 [J2 _]]. split; assumption. Qed.
+
+(** what a closed adapter answers: the memory tier and nothing else *)
+Theorem closed_serves_memory_only bind cap mb a0 ops : newAdapter cap mb = Some a0 ->
+  Forall (wf_c bind) ops ->
+  let a := arun a0 ops in
+  dbIsClosed a = true ->
+  ad_Keys a = Keys (mem a) /\
+  forall k,
+    (In k (Keys (mem a)) -> ad_Has a k = true /\ snd (ad_Get a k) = Some (bind k)) /\
+    (~ In k (Keys (mem a)) -> ad_Has a k = false /\ snd (ad_Get a k) = None).
+Proof.
+  intros Hnew Hwf a Hc. destruct (arun_K bind ops a0 (new_K bind cap mb a0 Hnew) Hwf) as [K1 K2]. fold a in K1, K2.
+  split; [unfold ad_Keys; rewrite Hc; reflexivity|]. intros k.
+  assert (Hkeys : In k (Keys (mem a)) <-> In k (mem_keys a)).
+  { rewrite Keys_refines. change (sp_keys (cabs (mem a))) with (keys (cabs (mem a))). apply in_keys_cabs. }
+  rewrite Hkeys. unfold ad_Has, ad_Get, Contains, Get, mem_keys. rewrite Hc.
+  destruct (lookup k (entries (mem a))) as [ent|] eqn:El.
+  - apply lookup_some in El. destruct El as [E1 E2]. split.
+    + intros _. split; [reflexivity|]. cbn [snd]. destruct (K2 ent E1) as [Hv _]. rewrite Hv, E2. reflexivity.
+    + intros H. exfalso. apply H. subst k. apply in_map. exact E1.
+  - apply lookup_none in El. split; [intros H; contradiction|]. intros _. split; reflexivity.
+Qed.
+
+(** in particular a key spilled before the Close is no longer found although the persister holds it *)
+Theorem spilled_then_closed_not_found bind cap mb a0 pre post k : newAdapter cap mb = Some a0 ->
+  Forall (wf_c bind) pre -> Forall (wf_c bind) post ->
+  let a := arun a0 (pre ++ AClose :: post) in
+  ~ In k (Keys (mem a)) ->
+  ad_Has a k = false /\ snd (ad_Get a k) = None /\ db_get k (db a) = db_get k (db (arun a0 pre)).
+Proof.
+  intros Hnew Hpre Hpost a Hk.
+  destruct (close_freezes_db a0 pre post) as [Hc Hdb]. fold a in Hc, Hdb.
+  assert (Hwf : Forall (wf_c bind) (pre ++ AClose :: post)).
+  { apply Forall_app. split; [exact Hpre|]. constructor; [exact I|exact Hpost]. }
+  destruct (closed_serves_memory_only bind cap mb a0 _ Hnew Hwf Hc) as [_ H]. fold a in H.
+  destruct (H k) as [_ H2]. destruct (H2 Hk) as [H3 H4]. split; [exact H3|]. split; [exact H4|].
+  rewrite Hdb. reflexivity.
 Qed.
